@@ -47,13 +47,22 @@ type DownloadReply struct {
 
 // RequestDownload sends a download request; offset < 0 means no resume data.
 func RequestDownload(cl *refclient.Client, name []byte, path [][]byte, offset int, preview bool) DownloadReply {
+	return RequestDownloadEnc(cl, name, path, offset, preview, false)
+}
+
+// RequestDownloadEnc: wide sends the preview option as a 4-byte integer (00 00 00 02), which the protocol allows.
+func RequestDownloadEnc(cl *refclient.Client, name []byte, path [][]byte, offset int, preview, wide bool) DownloadReply {
 	fs := []rc.Field{rc.F(201, name)}
 	fs = append(fs, pathField(202, path)...)
 	if offset >= 0 {
 		fs = append(fs, rc.F(203, rc.ResumeData(rc.DataFork(offset), rc.RsrcFork(0))))
 	}
 	if preview {
-		fs = append(fs, rc.F(204, rc.U16(2)))
+		if wide {
+			fs = append(fs, rc.F(204, rc.U32(2)))
+		} else {
+			fs = append(fs, rc.F(204, rc.U16(2)))
+		}
 	}
 	rep, ok := cl.Call(202, fs...)
 	d := DownloadReply{Reply: rep, OK: ok && rep.Err == 0}
